@@ -2,6 +2,7 @@ import Texel.Proofs.Chain
 import Texel.Properties.C17
 import Texel.Proofs.NoTwice
 import Texel.Proofs.Total
+import Texel.Properties.C09
 /-! # C06 — snapping is total: no panic, no hang for any in-grid polygon
 
 Every Go panic site is an `Except.error` of the model and every Go loop a structural recursion or a recursion on explicit
@@ -56,5 +57,23 @@ theorem C06_total_up_to_kmp_partial (hk : KmpNoDup) (g : Grid) (hres : 0 < g.res
     (hlev : ∀ l ∈ levels, l ≤ g.depth) (e : String) (h : snapPolygonF g rings levels cfg = .error e) :
     (e = "outside-grid" ∧ insertAll g rings = none) ∨ ∃ r, kmpDeduplicateF r = .error e :=
   snapPolygonF_error hk g hres rings levels cfg hlev e h
+
+/-- **finding F16, on the model**: "inside the grid" in the theorems above is the integer grid of `2^depth` pixels of size `res`; when the extent of
+the tile matrix set does not divide evenly (`XSpan = 2^depth · res + r`, `0 < r`: `r` is the deviation the tool reports) the strip
+`[minX + 2^depth·res, minX + XSpan)` lies inside the extent and outside the grid: every vertex there gets no address, so the polygon is reported
+as outside the grid although it is inside the extent. (On a round extent, `r = 0`, the strip is empty.) -/
+theorem C06_F16_strip (g : Grid) (hres : 0 < g.res) (XSpan r : Int) (hX : XSpan = 2 ^ g.depth * g.res + r) (p : Pt)
+    (hx : g.minX + 2 ^ g.depth * g.res ≤ p.x) (_hin : p.x < g.minX + XSpan) : deepestAddr g p = none := by
+  have h := (Texel.C09.C09_accept_iff g hres p)
+  cases hd : deepestAddr g p with
+  | none => rfl
+  | some a =>
+    have : (deepestAddr g p).isSome = true := by rw [hd]; rfl
+    have hi := h.1 this
+    unfold Texel.C09.Inside at hi
+    omega
+
+-- non-vacuity: a grid of 4 pixels of 3 units on an extent of 14 units (r = 2): x = 12 and x = 13 are inside the extent and get no address
+example : deepestAddr ⟨0, 0, 3, 2⟩ ⟨12, 5⟩ = none ∧ deepestAddr ⟨0, 0, 3, 2⟩ ⟨13, 5⟩ = none ∧ (deepestAddr ⟨0, 0, 3, 2⟩ ⟨11, 5⟩).isSome = true := by decide
 
 end Texel.C06
